@@ -144,3 +144,14 @@ package function
 //@   loop 0 invariant steps: forall k in 0..i :: ret[k].T == old(o.currentStep) + k*o.step && ret[k].T <= o.maxt
 //@   loop 0 invariant samples: forall k in 0..i :: len(ret[k].Samples) == 1 && len(ret[k].SampleIDs) == 1 && ret[k].SampleIDs[0] == 0 && allocated(ret[k].Samples) && allocated(ret[k].SampleIDs)
 //@   loop 0 invariant[C18] step-vectors-own-their-buffers: ownBuffers(ret, i) && sepBuffers(ret, i)
+
+// DropMetricName / dropLabel edit the label slice in place: only a private copy may be passed (C17).
+//@ func DropMetricName
+//@   requires[C17] only-private-copies-are-edited: isnil(l) || l.lowned
+//@   assigns elems(github.com/prometheus/prometheus/model/labels.Label)@l
+//@   ensures isnil(result0) || result0.lowned
+//@ func dropLabel
+//@   requires[C17] only-private-copies-are-edited: isnil(l) || l.lowned
+//@   assigns elems(github.com/prometheus/prometheus/model/labels.Label)@l
+//@   ensures result-is-the-same-buffer: ref(result0) == ref(l) || isnil(result0)
+//@   loop 0 invariant true
